@@ -459,12 +459,17 @@ class Adapter:
         a = self.obj('A', ev['k'])
         b = self.obj('B', ev['x'])
         form = self.rng.randrange(3)
-        if form == 0:
+        if ev['y'] == 2:         # many-to-many, changed from B's end
+            if form == 0:
+                b.as_.add(a)
+            elif form == 1:
+                b.as_ += a
+            else:
+                b.as_.add([a])
+        elif form == 0:
             a.bs.add(b)
         elif form == 1:
             a.bs += b
-        elif self.w.rel == 'm2m':
-            b.as_.add(a)
         else:
             a.bs.add([b])
 
@@ -472,19 +477,24 @@ class Adapter:
         a = self.obj('A', ev['k'])
         b = self.obj('B', ev['x'])
         form = self.rng.randrange(3)
-        if form == 0:
+        if ev['y'] == 2:         # many-to-many, changed from B's end
+            if form == 0:
+                b.as_.remove(a)
+            elif form == 1:
+                b.as_ -= a
+            else:
+                b.as_.remove([a])
+        elif form == 0:
             a.bs.remove(b)
         elif form == 1:
             a.bs -= b
-        elif self.w.rel == 'm2m':
-            b.as_.remove(a)
         else:
             a.bs.remove([b])
 
     def do_LAdd(self, ev):
         a = self.obj('A', ev['k'])
         b = self.obj('B', ev['x'])
-        if self.rng.randrange(2):
+        if ev['y'] == 1:
             a.ls.add(b)
         else:
             b.as_.add(a)
@@ -492,7 +502,7 @@ class Adapter:
     def do_LRemove(self, ev):
         a = self.obj('A', ev['k'])
         b = self.obj('B', ev['x'])
-        if self.rng.randrange(2):
+        if ev['y'] == 1:
             a.ls.remove(b)
         else:
             b.as_.remove(a)
@@ -1149,7 +1159,7 @@ class Driver:
             self.rng.shuffle(plans)          # a partial run (time budget) is a uniform sample of the level
             nxt = levels.setdefault(d + 1, [])
             for plan in plans:
-                if _time.time() > deadline:
+                if _time.process_time() > deadline:     # CPU time of this process: the share explored does not shrink under load
                     return n, False
                 self._systematic_one(plan, init, depth, nxt)
                 n += 1
